@@ -186,23 +186,35 @@ class ConcurrentCacher(Cacher[_K, _V]):
 
     def get_set(self, key: _K, getter: Union[Callable[[],_V],_V]) -> ContextManager[_V]:
 
+        lock = None #the lock taken by this call (a lock taken by an earlier call isn't ours to release)
         try:
             self._acquire_read_lock(key)
+            lock = 'read'
+
             if key in self._cache:
-                return self._release_read_on_exit(key,self._cache.get_set(key,None))
+                try:
+                    return self._release_read_on_exit(key,self._cache.get_set(key,None))
+                except Exception:
+                    #the cache couldn't serve the key after all and dropped it (e.g., a zero-length file) so we need to write
+                    if key in self._cache: raise
+
+            lock = None
             self._release_read_lock(key)
 
             self._acquire_write_lock(key)
+            lock = 'write'
             if key in self:#pragma: no cover; this is super hard to isolate so I'm just going to trust it...
                 self._switch_write_to_read_lock(key)
+                lock = 'read'
                 return self._release_read_on_exit(key,self._cache.get_set(key,None))
             else:
                 item = self._cache.get_set(key, getter)
                 self._switch_write_to_read_lock(key)
+                lock = 'read'
                 return self._release_read_on_exit(key,item)
-        except Exception as e:
-            if self._has_read_lock(key): self._release_read_lock(key)
-            if self._has_write_lock(key): self._release_write_lock(key)
+        except:
+            if lock == 'read' : self._release_read_lock(key)
+            if lock == 'write': self._release_write_lock(key)
             raise
 
     @contextmanager
